@@ -2,30 +2,38 @@
 //!
 //! Level: fault enumeration. Every fault of a listed class is applied at every site of a small
 //! valid source; each resulting file tree is compiled by the UNMODIFIED product binary
-//! (`vcore::fontc_bin()`), one process per case, under a wall-clock limit, an address-space cap
-//! and the default stack. Fault classes (all enumerated completely within the stated bound):
+//! (`vcore::fontc_bin()`), one process per case, under a CPU-time limit (RLIMIT_CPU), a wall-clock
+//! backstop, an address-space cap (RLIMIT_AS) and the default stack. Fault classes (all enumerated
+//! completely within the stated bound; `C15 quick <class>[,<class>]` runs a subset):
 //!
-//!  1. `component-graph`   every digraph on <= 3 glyphs as UFO components (static source and a
-//!                         2-master variable source), x flag sets x export sets x contour modes;
-//!                         plus the same digraphs as a generated Glyphs 3 file
+//!  1. `component-graph`   every digraph on <= 3 glyphs as components: static UFO, 2-master
+//!                         designspace and generated Glyphs 3 file x flag sets x export sets x
+//!                         contour modes (every glyph has a contour / composites are pure)
 //!  2. `structural`        on every file of a 2-master UFO+designspace: delete / duplicate each XML
 //!                         element, replace each number by each of 7 values, truncate at every
 //!                         1/16, delete the file, empty the file
 //!  3. `designspace`       a list of semantic designspace faults
-//!  4. `glif`              a list of glif / layer-contents faults, at every master subset
+//!  4. `glif`              a list of glif / layer-contents faults, at every glyph x master subset
 //!  5. `fea-soup`          every sequence of <= 2 / <= 3 lexemes as features.fea (raw and inside a
-//!                         feature block)
+//!                         feature block); plus include cycles / chains / missing includes
 //!  6. `glyphs-text`       truncation, top-level key deletion, unbalanced delimiters and component
 //!                         retargeting on small Glyphs fixtures of the repository
+//!  7. `deep-nesting`      nesting depth 100 .. 10^6 in every recursive input syntax (Glyphs plist,
+//!                         XML plist in lib.plist / designspace lib / glif lib, FEA brackets and blocks)
 //!
 //! Oracle (from the property text only): the process ends within the limits and either
 //!   * exits 0, the output file exists, is not empty and is a structurally sound font
 //!     (`otref::check_font` plus a small hand-written sfnt/glyf sanity pass), or
 //!   * exits 1 (2 for a command-line error) with a non-empty diagnostic and NO output file.
-//! Anything else is a violation: death by signal, exit 101/134/other, timeout, exit 0 without a
-//! font, a font left behind by a failed run, a silent failure.
+//! Anything else is a violation: death by signal, exit 101/134/other, CPU or wall limit reached,
+//! exit 0 without a font, a font left behind by a failed run, a silent failure.
 //! A diagnostic "A task panicked: …" with exit 1 is a *reported* failure: not a violation of this
 //! property's text, but counted (`panics_reported_as_errors`).
+//!
+//! Time: a normal run costs 30-50 ms. A run that does not terminate costs its whole limit, so
+//! every case first runs with a 1 s CPU limit and only cases over it are judged with the full
+//! 10 s limit (see `hang_policy` in the evidence). The run-wide deadline (`C15_DEADLINE_S`) is a
+//! safety valve far above the tier budget; when it cuts cases off, `exhaustive` is false.
 use dgen::{Axis, Component, Design, Glyph, Layer, shapes};
 use serde_json::{Value, json};
 use std::{
@@ -47,7 +55,7 @@ struct Limits {
 /// the limits a hang verdict is based on
 const FULL: Limits = Limits { cpu_s: 10, wall_ms: 60_000 };
 /// first-pass limits (see `hang_policy` in the evidence)
-const FIRST: Limits = Limits { cpu_s: 2, wall_ms: 20_000 };
+const FIRST: Limits = Limits { cpu_s: 1, wall_ms: 20_000 };
 const SIGXCPU: i32 = 24;
 const MEM_CAP: u64 = 4 << 30;
 const JOBS: usize = 16;
@@ -1318,6 +1326,10 @@ fn fea_cases(tier: Tier, base: &Arc<Base>, out: &mut Vec<Case>) {
             toks.reverse();
             let body = toks.join(" ");
             for wrapped in [false, true] {
+                // quick tier: inside a feature block only the sequences of <= 1 lexeme
+                if wrapped && tier == Tier::Quick && len > 1 {
+                    continue;
+                }
                 let text = if wrapped { format!("feature test {{\n{body}\n}} test;\n") } else { format!("{body}\n") };
                 out.push(simple_case(
                     "fea-soup",
@@ -1575,7 +1587,7 @@ fn main() {
     }
     let t0 = Instant::now();
     let tier = args.tier;
-    let deadline_s: f64 = std::env::var("C15_DEADLINE_S").ok().and_then(|s| s.parse().ok()).unwrap_or(tier.pick(50.0, 1500.0));
+    let deadline_s: f64 = std::env::var("C15_DEADLINE_S").ok().and_then(|s| s.parse().ok()).unwrap_or(tier.pick(240.0, 3000.0));
     let two_phase = std::env::var("C15_SINGLE_PHASE").is_err();
     let first = if two_phase { FIRST } else { FULL };
 
@@ -1815,6 +1827,7 @@ fn main() {
     rep.set("evaluations", evaluations + (rerun.len() + second.len()) as u64);
     rep.set("cases_generated", cases.len());
     rep.set("cases_skipped_by_deadline", skipped);
+    rep.set("deadline_s", deadline_s);
     rep.set("exhaustive", skipped == 0);
     rep.set("distinct_nontrivial", nontrivial);
     rep.set(
